@@ -1,4 +1,5 @@
 import UtlsVerif.Grease
+import UtlsVerif.GreaseReapply
 /-!
 # C04 — GREASE values are well-formed, distinct where required, and fresh (a function of this
 connection's random bytes)
@@ -78,6 +79,95 @@ theorem group_grease_consistent (seed : Nat) (groups shares : List Nat) :
   · intro i h hng
     simp [subst, h, hng]
 
+/-! ### Re-application of one spec object (two-step build, a spec shared by several connections,
+literal GREASE values in a custom spec) -/
+
+/-- **the substitution is consistent under re-application**: applied to a list that an earlier
+application (seed `s`) already rewrote, it yields the *new* seed's values — exactly what a fresh list
+would give. The earlier connection's concrete GREASE value is recognised and replaced, not kept. -/
+theorem resubst_consistent (s t : Nat) (xs : List Nat) : subst t (subst s xs) = subst t xs := by
+  simp only [subst, List.map_map]
+  apply List.map_congr_left
+  intro x _
+  by_cases h : isGrease x = true
+  · simp [h, boring_is_grease s]
+  · simp [h]
+
+/-- the substitution is idempotent. -/
+theorem subst_idem (s : Nat) (xs : List Nat) : subst s (subst s xs) = subst s xs :=
+  resubst_consistent s s xs
+
+/-- a literal GREASE value in a (custom) spec is treated like the placeholder: the result depends on the
+*shape* of the spec's list only. -/
+theorem subst_literal (s : Nat) (xs ys : List Nat) (h : xs.map toPlaceholder = ys.map toPlaceholder) :
+    subst s xs = subst s ys := by
+  have key : ∀ zs : List Nat, subst s (zs.map toPlaceholder) = subst s zs := by
+    intro zs
+    simp only [subst, List.map_map]
+    apply List.map_congr_left
+    intro x _
+    by_cases hx : isGrease x = true
+    · have : isGrease 2570 = true := by decide
+      simp [toPlaceholder, hx, this]
+    · simp [toPlaceholder, hx]
+  rw [← key xs, ← key ys, h]
+
+/-- two spec objects are indistinguishable for every later application. -/
+private def SameShape (p q : SpecLists) : Prop :=
+  q.ciphers = p.ciphers ∧ (∀ t, subst t q.groups = subst t p.groups) ∧
+  (∀ t, subst t q.shares = subst t p.shares) ∧ (∀ t, subst t q.versions = subst t p.versions)
+
+private theorem applySpec_sameShape (raw : Seeds) (n : Nat) (p q : SpecLists) (h : SameShape p q) :
+    (applySpec raw n q).2 = (applySpec raw n p).2 ∧ SameShape p (applySpec raw n q).1 := by
+  obtain ⟨hc, hg, hs, hv⟩ := h
+  refine ⟨?_, ?_, ?_, ?_, ?_⟩
+  · simp [applySpec, hc, hg, hs, hv]
+  · simp [applySpec, hc]
+  · intro t; simp only [applySpec]; rw [resubst_consistent, hg]
+  · intro t; simp only [applySpec]; rw [resubst_consistent, hs]
+  · intro t; simp only [applySpec]; rw [resubst_consistent, hv]
+
+private theorem applySpecAll_sameShape (n : Nat) (ss : List Seeds) (p q : SpecLists) (h : SameShape p q) :
+    applySpecAll n ss q = ss.map fun s => (applySpec s n p).2 := by
+  induction ss generalizing q with
+  | nil => rfl
+  | cons s ss ih =>
+    obtain ⟨h1, h2⟩ := applySpec_sameShape s n p q h
+    simp only [applySpecAll, List.map_cons]
+    rw [h1, ih _ h2]
+
+/-- **every hello is a function of its own connection's seed and the original spec only**: for every
+sequence of applications of one spec object (any number of build steps / connections, any seeds), the
+hello produced by the j-th application is the hello a *fresh* copy of the spec would give with the j-th
+seed — nothing of an earlier connection's GREASE values survives in the in-place rewritten spec. -/
+theorem reapply_function_of_own_seed (n : Nat) (ss : List Seeds) (p : SpecLists) :
+    applySpecAll n ss p = ss.map fun s => (applySpec s n p).2 :=
+  applySpecAll_sameShape n ss p p ⟨rfl, fun _ => rfl, fun _ => rfl, fun _ => rfl⟩
+
+/-- in every hello of every such sequence the GREASE group of key_share and the GREASE group of
+supported_groups are both the value of that application's own group seed (hence equal to each other),
+and the two GREASE extensions differ. -/
+theorem reapply_group_consistent (n : Nat) (ss : List Seeds) (p : SpecLists) (j : Nat) (h : HelloGrease)
+    (hj : (applySpecAll n ss p)[j]? = some h) :
+    ∃ s, ss[j]? = some s ∧
+      (∀ g ∈ h.groups, isGrease g = true → g = boring s.group) ∧
+      (∀ g ∈ h.shares, isGrease g = true → g = boring s.group) ∧
+      (n = 2 → h.exts[0]? ≠ h.exts[1]?) := by
+  rw [reapply_function_of_own_seed, List.getElem?_map] at hj
+  cases hs : ss[j]? with
+  | none => simp [hs] at hj
+  | some s =>
+    simp only [hs, Option.map_some, Option.some.injEq] at hj
+    subst hj
+    have hd : (dedup s).group = s.group := by unfold dedup; split <;> rfl
+    obtain ⟨h1, h2, _, _⟩ := group_grease_consistent s.group p.groups p.shares
+    refine ⟨s, rfl, ?_, ?_, ?_⟩
+    · simpa [applySpec, hd] using h1
+    · simpa [applySpec, hd] using h2
+    · intro hn; subst hn
+      have := ext_grease_distinct s
+      simpa [applySpec, List.range, List.range.loop] using this
+
 /-- substituted values stay in the reserved space: whatever was GREASE-shaped is GREASE-shaped after. -/
 theorem subst_keeps_shape (seed : Nat) (xs : List Nat) (i : Nat) (h : i < xs.length) :
     isGrease xs[i] = true → ∃ v, (subst seed xs)[i]? = some v ∧ isGrease v = true := by
@@ -124,5 +214,11 @@ example : boring 0x1234 = 0x3a3a := by decide
 example : dedup ⟨1, 2, 0x10, 0x1f, 5⟩ = ⟨1, 2, 0x10, 0x100f, 5⟩ := by decide
 example : greaseVersion 1 = 0x0a0a0a0a := by decide
 example : greaseVersion 0xffffffff = 0xfafafafa := by decide
+/-- a Chrome-like spec applied three times: the third hello carries the third seed's values. -/
+example : (applySpecAll 2 [⟨0x10, 0x20, 0x30, 0x30, 0x50⟩, ⟨0x60, 0x70, 0x80, 0x90, 0xa0⟩, ⟨1, 0xf2, 3, 4, 5⟩]
+    ⟨[0x0a0a, 4865], [0x0a0a, 29, 23], [0x0a0a, 29], [0x0a0a, 772, 771]⟩)[2]? =
+    some ⟨[0x0a0a, 4865], [0xfafa, 29, 23], [0xfafa, 29], [0x0a0a, 772, 771], [0x0a0a, 0x1a1a]⟩ := by decide
+example : subst 0x70 (subst 0x20 [0x0a0a, 29]) = [0x7a7a, 29] := by decide
+example : [0x1a1a, 29].map toPlaceholder = [0x0a0a, 29].map toPlaceholder := by decide
 
 end C04
